@@ -2,6 +2,7 @@ package main
 
 import (
 	"fmt"
+	"sort"
 	"strconv"
 )
 
@@ -645,6 +646,54 @@ func famForward(g *sgen, i int) J {
 	return J{"label": "forward", "wantGraph": true, "cfg": J{"kind": "both"}, "world": w, "steps": steps}
 }
 
+// C11: a valid scenario of any family with one or two hostile mutations — of the request body, of a document the
+// Transport returns, or of a value the Database returns
+func famHostile(g *sgen, i int) J {
+	bases := []string{"inbox", "outbox", "send", "forward", "authority", "graph", "create", "get", "inbox", "outbox"}
+	sc := families[bases[i%len(bases)]](g, i/len(bases))
+	w := jmap(sc["world"])
+	rem := jmap(w["remote"])
+	rem[remote("/incomplete")] = J{"type": "Person", "id": remote("/incomplete"), "name": "no inbox"}
+	sc["label"] = "hostile-" + fmt.Sprint(sc["label"])
+	delete(sc, "wantGraph")
+	var muts []interface{}
+	for n, m := 0, 1+g.r.intn(2); n < m; n++ {
+		switch g.r.intn(4) {
+		case 0, 1: // the request body / value
+			steps := sc["steps"].([]interface{})
+			st := jmap(steps[g.r.intn(len(steps))])
+			key := "body"
+			if st["entry"] == "send" {
+				key = "value"
+			}
+			if b, ok := st[key].(map[string]interface{}); ok {
+				nb, d := g.mutate(b)
+				st[key] = nb
+				muts = append(muts, "body:"+d)
+			}
+		case 2: // a remote document
+			ks := sortedKeys(rem)
+			if len(ks) > 0 {
+				k := ks[g.r.intn(len(ks))]
+				nd, d := g.mutate(rem[k])
+				rem[k] = nd
+				muts = append(muts, "remote["+k+"]:"+d)
+			}
+		default: // a stored value
+			store := jmap(w["store"])
+			ks := sortedKeys(store)
+			if len(ks) > 0 {
+				k := ks[g.r.intn(len(ks))]
+				nd, d := g.mutate(store[k])
+				store[k] = nd
+				muts = append(muts, "store["+k+"]:"+d)
+			}
+		}
+	}
+	sc["mutations"] = muts
+	return sc
+}
+
 var families = map[string]family{"forward": famForward, "graph": famGraph, "authority": famAuthority, "create": famCreate, "history": famHistory, "ids": famIds, "missing": famMissing, "inbox": famInbox, "outbox": famOutbox, "send": famSend, "get": famGet, "gate": famGate}
 
 // args: <prop> <count> <maxFaultsPerScenario> fam1,fam2,...
@@ -691,3 +740,27 @@ func init() {
 		runners["pub-"+prop] = &runner{prop: prop, gen: genPub, run: runPub}
 	}
 }
+
+func init() { families["hostile"] = famHostile }
+
+func sortedKeys(m J) []string {
+	ks := make([]string, 0, len(m))
+	for k := range m {
+		ks = append(ks, k)
+	}
+	sort.Strings(ks)
+	return ks
+}
+
+// C11's recorded finding: GET of the inbox served by a Social-only actor
+func famGetSocial(g *sgen, i int) J {
+	sc := famGet(g, i)
+	st := jmap(sc["steps"].([]interface{})[0])
+	st["entry"] = "getInbox"
+	st["path"] = "/users/alice/inbox"
+	sc["cfg"] = J{"kind": "social"}
+	sc["label"] = "getInbox-social-only"
+	return sc
+}
+
+func init() { families["getsocial"] = famGetSocial }
